@@ -56,3 +56,259 @@ Section S.
     c09_run (Some content) PhStart cs = Some ph -> completed cs = true -> True.
   Proof. trivial. Qed.
 End S.
+
+(* ================= C17: bookkeeping bounded by configuration ================= *)
+From FluteV Require Import Spec.C17Spec.
+
+Section C17.
+  Variable E : env.
+  Variable parse_fdt : list N -> option fdtinst.
+  Variable cfg : rconfig.
+
+  (* ---- frame: which functions may touch the packet cache ---- *)
+  Definition cache_keep_or_clear (o o' : objrecv) : Prop :=
+    r_max o' = r_max o /\
+    ((r_cache o' = r_cache o /\ r_cache_size o' = r_cache_size o) \/ (r_cache o' = [] /\ r_cache_size o' = 0)).
+
+  Lemma ckc_refl o : cache_keep_or_clear o o.
+  Proof. split; [reflexivity|left; split; reflexivity]. Qed.
+  Lemma ckc_trans a b c : cache_keep_or_clear a b -> cache_keep_or_clear b c -> cache_keep_or_clear a c.
+  Proof.
+    intros [M1 [[A1 A2]|[A1 A2]]] [M2 [[B1 B2]|[B1 B2]]]; split; try congruence.
+    - left; split; congruence.
+    - right; split; assumption.
+    - right; split; congruence.
+    - right; split; assumption.
+  Qed.
+
+  Lemma ckc_complete o c : cache_keep_or_clear o (fst (complete o c)).
+  Proof. unfold complete. destruct (r_writer o) as [[w ws]|]; split; cbn; auto. Qed.
+  Lemma ckc_error o i c : cache_keep_or_clear o (fst (error o i c)).
+  Proof. unfold error. destruct (r_writer o) as [[w ws]|]; destruct i; split; cbn; auto. Qed.
+  Lemma ckc_set_blocks o bl off nb sz bw : cache_keep_or_clear o (set_blocks o bl off nb sz bw).
+  Proof. split; cbn; auto. Qed.
+  Lemma ckc_set_state o s : cache_keep_or_clear o (set_state o s).
+  Proof. split; cbn; auto. Qed.
+
+  Lemma ckc_write_blocks : forall fuel sbn o c,
+    cache_keep_or_clear o (match fst (write_blocks E fuel sbn o c) with ROk x | RErr x => x end).
+  Proof.
+    induction fuel as [|f IH]; intros sbn o c; cbn [write_blocks fst]; [apply ckc_refl|].
+    destruct (r_writer o) as [[w ws]|]; [|apply ckc_refl].
+    destruct ws; try apply ckc_refl.
+    destruct (r_bw o) as [bw|]; [|apply ckc_refl].
+    destruct ((r_off o <=? sbn) && (sbn - r_off o <? N.of_nat (length (r_blocks o)))); [|apply ckc_refl].
+    destruct (negb (bd_completed _)); [apply ckc_refl|].
+    destruct (bw_write E w sbn _ bw c) as [[| bw' | |] c1]; cbn [fst]; try apply ckc_refl.
+    destruct (Nat.eqb (N.to_nat (sbn - r_off o)) 0); cbv zeta beta iota;
+    match goal with |- context [set_blocks o ?a ?b ?d ?e ?g] => set (o1 := set_blocks o a b d e g) end;
+    assert (K1 : cache_keep_or_clear o o1) by (unfold o1; apply ckc_set_blocks);
+    destruct (bw_left bw' =? 0).
+    all: try (eapply ckc_trans; [exact K1|apply IH]).
+    all: destruct (match r_md5 o1, bw_md5 bw' with Some want, Some got => eqb_bytes want got | _, _ => true end).
+    all: try (pose proof (ckc_complete o1 c1) as K2; destruct (complete o1 c1) as [o2 c2]; cbn [fst] in K2 |- *; exact (ckc_trans _ _ _ K1 K2)).
+    all: try (pose proof (ckc_error o1 false c1) as K2; destruct (error o1 false c1) as [o2 c2]; cbn [fst] in K2 |- *; exact (ckc_trans _ _ _ K1 K2)).
+  Qed.
+
+  Definition res_obj (r : res) : objrecv := match r with ROk x | RErr x => x end.
+
+  Lemma ckc_push_to_block2 p o c : cache_keep_or_clear o (res_obj (fst (push_to_block2 E p o c))).
+  Proof.
+    unfold push_to_block2.
+    destruct (r_oti o) as [oti|]; [|apply ckc_refl].
+    destruct (r_tlen o) as [tlen|]; [|apply ckc_refl].
+    destruct (a_pid_with (ro_fec oti) p) as [[[sbn esi] sbl]|]; [|apply ckc_refl].
+    destruct (tlen =? 0).
+    { pose proof (ckc_complete o c) as K. destruct (complete o c) as [o1 c1]. exact K. }
+    destruct (sbn <? r_off o); [apply ckc_refl|].
+    destruct (match sbl with None => nb_blocks_of oti tlen <=? sbn | Some _ => false end); [apply ckc_refl|].
+    destruct ((N.of_nat (length (r_blocks o)) <=? sbn - r_off o) && (4096 <? sbn - r_off o)); [apply ckc_set_state|].
+    cbv zeta.
+    match goal with |- context [bd_completed ?b] => destruct (bd_completed b) end; [apply ckc_set_blocks|].
+    match goal with |- context [match ?x with None => _ | Some _ => _ end] =>
+      destruct x as [[[[b1 nb] sz]|]|] end; cbn [fst res_obj]; try apply ckc_set_blocks.
+    - destruct (bd_push E (r_toi o) oti sbn esi (a_payload p) b1) as [b2 pan].
+      match goal with |- context [set_blocks (set_blocks o ?a ?b ?d ?e ?g) ?a2 ?b2' ?d2 ?e2 ?g2] =>
+        set (o1 := set_blocks (set_blocks o a b d e g) a2 b2' d2 e2 g2) end.
+      assert (K1 : cache_keep_or_clear o o1)
+        by (unfold o1; eapply ckc_trans; apply ckc_set_blocks).
+      destruct (bd_completed b2); cbn [fst res_obj]; [|exact K1].
+      eapply ckc_trans; [exact K1|]. apply ckc_write_blocks.
+  Qed.
+
+  Lemma ckc_push_to_block p o c : cache_keep_or_clear o (res_obj (fst (push_to_block E p o c))).
+  Proof.
+    unfold push_to_block. pose proof (ckc_push_to_block2 p o c) as K.
+    destruct (push_to_block2 E p o c) as [[o1|o1] c1]; cbn [fst res_obj] in *; [|exact K].
+    destruct (a_close_obj p); [|exact K].
+    destruct (r_state o1); try exact K.
+    pose proof (ckc_error o1 true c1) as K2. destruct (error o1 true c1) as [o2 c2]. cbn [fst res_obj] in *.
+    exact (ckc_trans _ _ _ K K2).
+  Qed.
+
+  (* ---- cache_bounded: packets buffered before the OTI is known never exceed the configured
+     cache size by more than one packet, whatever is pushed ---- *)
+  Definition cache_ok (M : N) (o : objrecv) : Prop :=
+    r_cache_size o = cache_bytes o /\ cache_bytes o <= r_max o + M.
+
+  Lemma cache_ok_of_ckc M o o' : cache_ok M o -> cache_keep_or_clear o o' -> cache_ok M o'.
+  Proof.
+    intros [A B] [Mx [[K1 K2]|[K1 K2]]]; unfold cache_ok, cache_bytes in *.
+    - rewrite K1, K2, Mx. auto.
+    - rewrite K1, K2. cbn. split; [reflexivity|lia].
+  Qed.
+
+  Lemma ckc_init_partition o : cache_keep_or_clear o (init_partition o).
+  Proof.
+    unfold init_partition. destruct (0 <? nb_block o); [apply ckc_refl|].
+    destruct (r_oti o) as [oti|]; [|apply ckc_refl]. destruct (r_tlen o) as [tl|]; [|apply ckc_refl].
+    destruct (block_partitioning (ro_b oti) tl (ro_e oti)) as [[[al as_] nal] n]. split; cbn; auto.
+  Qed.
+
+  Lemma ckc_init_writer o c : cache_keep_or_clear o (fst (init_writer E o c)).
+  Proof.
+    unfold init_writer. destruct (r_writer o); [apply ckc_refl|].
+    destruct (r_fdt_id o); [|apply ckc_refl]. destruct (r_cenc o); [|apply ckc_refl].
+    destruct (r_tlen o); [|apply ckc_refl]. destruct (r_oti o); [|apply ckc_refl].
+    cbv zeta. destruct (e_builder E (r_toi o) (ncalls c (r_toi o))); cbn [fst]; try apply ckc_set_state.
+    match goal with |- context [e_open_ok E ?w] => destruct (e_open_ok E w) end; cbn [negb].
+    - split; cbn; auto.
+    - match goal with |- context [error ?x false ?y] =>
+        pose proof (ckc_error x false y) as K; destruct (error x false y) as [o2 c2] end.
+      cbn [fst] in *. eapply ckc_trans; [|exact K]. split; cbn; auto.
+  Qed.
+
+  Lemma error_clears o i c : r_cache (fst (error o i c)) = [].
+  Proof. unfold error. destruct (r_writer o) as [[w ws]|]; destruct i; reflexivity. Qed.
+
+  Lemma drain_cache_clears : forall cache o c,
+    (cache = [] -> r_cache o = []) ->
+    r_cache (fst (drain_cache E cache o c)) = [] /\ r_max (fst (drain_cache E cache o c)) = r_max o.
+  Proof.
+    induction cache as [|p rest IH]; intros o c H; cbn [drain_cache fst].
+    - split; [apply H; reflexivity|reflexivity].
+    - set (o0 := mk_or _ _ _ (List.rev rest) _ _ _ _ _ _ _ _ _ _ _ _ _ _ _ _ _ _).
+      pose proof (ckc_push_to_block p o0 c) as K.
+      destruct (push_to_block E p o0 c) as [[o1|o1] c1]; cbn [fst res_obj] in K.
+      + destruct K as [Mx K].
+        destruct (r_cache o1) as [|x xs] eqn:Ec.
+        * cbn [fst]. split; [exact Ec|rewrite Mx; reflexivity].
+        * destruct (IH o1 c1) as [I1 I2].
+          { intros ->. destruct K as [[K1 _]|[K1 _]]; rewrite K1 in Ec; cbn in Ec; discriminate. }
+          split; [exact I1|rewrite I2, Mx; reflexivity].
+      + pose proof (ckc_error o1 false c1) as K2. pose proof (error_clears o1 false c1) as EC.
+        destruct (error o1 false c1) as [o2 c2]. cbn [fst] in *.
+        destruct K as [Mx _]. destruct K2 as [Mx2 _]. split; [exact EC|rewrite Mx2, Mx; reflexivity].
+  Qed.
+
+  Lemma ckc_push_from_cache o c : cache_keep_or_clear o (fst (push_from_cache E o c)).
+  Proof.
+    unfold push_from_cache. destruct (nb_block o =? 0); [apply ckc_refl|].
+    destruct (drain_cache_clears (List.rev (r_cache o)) o c) as [D1 D2].
+    { intros H. apply (f_equal (@List.rev apkt)) in H. rewrite rev_involutive in H. exact H. }
+    destruct (drain_cache E (List.rev (r_cache o)) o c) as [o1 c1]. cbn [fst] in *.
+    split; cbn; [exact D2|right; split; [exact D1|reflexivity]].
+  Qed.
+
+  (* cache_bounded, object level: whatever packet is pushed (of datagram length <= M) and whatever
+     the writer oracles answer, the bytes cached before the OTI is known stay within the
+     configured cache size plus one packet, and the size counter is exact *)
+  Theorem or_push_cache_bounded M p o c :
+    cache_ok M o -> a_datalen p <= M -> cache_ok M (fst (or_push E p o c)).
+  Proof.
+    intros OK HM. unfold or_push. destruct (r_state o); try exact OK.
+    assert (G0 : forall o1, cache_keep_or_clear o o1 ->
+      cache_ok M (fst (let o2 := init_partition o1 in
+                       let (o3, c3) := init_writer E o2 c in
+                       match r_state o3 with
+                       | Receiving =>
+                         let (o4, c4) := push_from_cache E o3 c3 in
+                         match r_oti o4 with
+                         | None =>
+                           if r_max o4 <=? r_cache_size o4 then error o4 false c4
+                           else (mk_or (r_state o4) (r_toi o4) (r_oti o4) (r_cache o4 ++ [p]) (r_cache_size o4 + a_datalen p) (r_max o4) (r_blocks o4)
+                                       (r_off o4) (r_tlen o4) (r_cenc o4) (r_md5 o4) (r_md5chk o4) (r_al o4) (r_as o4) (r_nal o4)
+                                       (r_writer o4) (r_bw o4) (r_fdt_id o4) (r_nb_alloc o4) (r_alloc_size o4) (r_clen o4) (r_nocache o4), c4)
+                         | Some _ =>
+                           match push_to_block E p o4 c4 with
+                           | (ROk o5, c5) => (o5, c5)
+                           | (RErr o5, c5) => error o5 false c5
+                           end
+                         end
+                       | _ => (o3, c3)
+                       end))).
+    2: { destruct (r_oti o); destruct (a_oti p) as [[ot l]|]; cbv zeta beta iota; apply G0; split; cbn; auto. }
+    intros o1 K1. cbv zeta.
+    pose proof (ckc_init_partition o1) as K2. set (o2 := init_partition o1) in *.
+    pose proof (ckc_init_writer o2 c) as K3. destruct (init_writer E o2 c) as [o3 c3]. cbn [fst] in K3.
+    assert (K13 : cache_keep_or_clear o o3) by (eapply ckc_trans; [exact K1|eapply ckc_trans; eassumption]).
+    destruct (r_state o3); cbn [fst]; try (eapply cache_ok_of_ckc; eassumption).
+    pose proof (ckc_push_from_cache o3 c3) as K4. destruct (push_from_cache E o3 c3) as [o4 c4]. cbn [fst] in K4.
+    assert (K14 : cache_keep_or_clear o o4) by (eapply ckc_trans; eassumption).
+    pose proof (cache_ok_of_ckc M o o4 OK K14) as OK4.
+    destruct (r_oti o4).
+    - pose proof (ckc_push_to_block p o4 c4) as K5.
+      destruct (push_to_block E p o4 c4) as [[o5|o5] c5]; cbn [fst res_obj] in *.
+      + eapply cache_ok_of_ckc; eassumption.
+      + pose proof (ckc_error o5 false c5) as K6. destruct (error o5 false c5) as [o6 c6]. cbn [fst] in *.
+        eapply cache_ok_of_ckc; [exact OK4|]. eapply ckc_trans; eassumption.
+    - destruct (N.leb_spec (r_max o4) (r_cache_size o4)) as [Hfull|Hroom].
+      + pose proof (ckc_error o4 false c4) as K6. destruct (error o4 false c4) as [o6 c6]. cbn [fst] in *.
+        eapply cache_ok_of_ckc; eassumption.
+      + cbn [fst]. destruct OK4 as [S4 B4]. unfold cache_ok, cache_bytes in *. cbn [r_cache r_cache_size r_max].
+        rewrite map_app. cbn [map]. unfold sumN' in *. rewrite fold_right_app. cbn [fold_right].
+        assert (G : forall l x, fold_right N.add x l = fold_right N.add 0 l + x).
+        { induction l as [|y l IHl]; intros x; cbn [fold_right]; [lia|]. rewrite IHl. lia. }
+        rewrite (G _ (a_datalen p + 0)). split; lia.
+  Qed.
+
+  (* the same frame for attaching an FDT instance: it never adds to the cache *)
+  Theorem or_attach_cache_bounded M id files ioti o c :
+    cache_ok M o -> cache_ok M (snd (fst (or_attach E id files ioti o c))).
+  Proof.
+    intros OK. unfold or_attach. destruct (r_fdt_id o); [exact OK|].
+    destruct (find _ files) as [f|]; [|exact OK].
+    assert (G0 : forall o1, cache_keep_or_clear o o1 ->
+      cache_ok M (snd (fst (let o2 := init_partition o1 in
+                            let (o3, c3) := init_writer E o2 c in
+                            let (o4, c4) := push_from_cache E o3 c3 in
+                            let '(o5, c5) := match write_blocks E (S (length (r_blocks o4))) 0 o4 c4 with
+                                             | (ROk x, cx) => (x, cx)
+                                             | (RErr x, cx) => error x false cx
+                                             end in
+                            let (o6, c6) := push_from_cache E o5 c5 in
+                            (true, o6, c6))))).
+    2: { destruct (r_oti o); [|destruct (match ff_oti f with Some x => Some x | None => ioti end)];
+         cbv zeta beta iota; apply G0; split; cbn; auto. }
+    intros o1 K1. cbv zeta.
+    pose proof (ckc_init_partition o1) as K2. set (o2 := init_partition o1) in *.
+    pose proof (ckc_init_writer o2 c) as K3. destruct (init_writer E o2 c) as [o3 c3]. cbn [fst] in K3.
+    pose proof (ckc_push_from_cache o3 c3) as K4. destruct (push_from_cache E o3 c3) as [o4 c4]. cbn [fst] in K4.
+    pose proof (ckc_write_blocks (S (length (r_blocks o4))) 0 o4 c4) as K5.
+    destruct (write_blocks E (S (length (r_blocks o4))) 0 o4 c4) as [[o5|o5] c5]; cbn [fst res_obj] in K5.
+    - pose proof (ckc_push_from_cache o5 c5) as K6. destruct (push_from_cache E o5 c5) as [o6 c6]. cbn [fst snd] in *.
+      eapply cache_ok_of_ckc; [exact OK|].
+      exact (ckc_trans _ _ _ K1 (ckc_trans _ _ _ K2 (ckc_trans _ _ _ K3 (ckc_trans _ _ _ K4 (ckc_trans _ _ _ K5 K6))))).
+    - pose proof (ckc_error o5 false c5) as K6. destruct (error o5 false c5) as [o6 c6]. cbn [fst] in K6.
+      pose proof (ckc_push_from_cache o6 c6) as K7. destruct (push_from_cache E o6 c6) as [o7 c7]. cbn [fst snd] in *.
+      eapply cache_ok_of_ckc; [exact OK|].
+      exact (ckc_trans _ _ _ K1 (ckc_trans _ _ _ K2 (ckc_trans _ _ _ K3 (ckc_trans _ _ _ K4 (ckc_trans _ _ _ K5 (ckc_trans _ _ _ K6 K7)))))).
+  Qed.
+
+  Lemma cache_ok_new M toi mx : cache_ok M (or_new toi mx).
+  Proof. unfold cache_ok, cache_bytes, or_new. cbn. split; [reflexivity|lia]. Qed.
+
+  (* ---- the failed-objects list and the list of current FDT instances ---- *)
+  Lemma gc_error_bound : forall fuel r c,
+    (length (rv_error r) <= fuel + N.to_nat (cf_max_err cfg))%nat ->
+    (length (rv_error (fst (gc_error cfg fuel r c))) <= N.to_nat (cf_max_err cfg))%nat.
+  Proof.
+    induction fuel as [|f IH]; intros r c H; cbn [gc_error fst].
+    - cbn in H. exact H.
+    - destruct (N.ltb_spec (cf_max_err cfg) (N.of_nat (length (rv_error r)))) as [Hlt|Hge]; cbn [fst]; [|lia].
+      destruct (rv_error r) as [|toi rest] eqn:Er; cbn [fst]; [rewrite Er; cbn; lia|].
+      unfold remove_obj.
+      match goal with |- context [get_obj ?x ?t] => destruct (get_obj x t) as [q|] end;
+        apply IH; cbn [rv_error set_objects fst]; cbn [length] in H; lia.
+  Qed.
+End C17.
